@@ -304,7 +304,7 @@ def r1_one_relation(chk):
                 if t["k"] == "switch":
                     a, _ = pr.cond_atom(t["d"])
                     if a[0] == "discr" and a[2] == "std::option::Option<&str>":
-                        none_edges.add((s, 0))
+                        none_edges.add((s, pr.label_for(s, 0)))
             reach = pr.reachable([0], avoid_edges=avoid_edges | none_edges)
             if chk_calls and datas and not any(d in reach for d in datas):
                 r.ok(cfg, key, where(pr, chk_calls[0].blk), "phase=Data only after socket_types_compatible(..) == true (or no Socket-Type property)")
